@@ -18,6 +18,7 @@
 #include <hgraph/lib/std/operators/impl/higher_order_impl.h>   // mesh_ref
 #include <hgraph/lib/std/operators/impl/record_replay_memory_impl.h>
 #include <hgraph/lib/testing/record_replay.h>
+#include <hgraph/lib/testing/runtime_support.h>
 
 #include <array>
 #include <deque>
@@ -43,6 +44,7 @@ namespace
         long                     nin{0};
         std::vector<std::string> stmts;  // raw statement lines in order
         std::string              out;
+        std::vector<std::string> natives;  // `native` statements: nodes appended to the compiled builder (root only)
     };
     struct Scenario
     {
@@ -1119,7 +1121,7 @@ namespace
     using L3P = Port<L3S>;
     L3P interpret3(Env &env, const GraphSpec &g)
     {
-        static_cast<void>(interpret(env, GraphSpec{g.name, g.nin, g.stmts, ""}));
+        static_cast<void>(interpret(env, GraphSpec{g.name, g.nin, g.stmts, "", {}}));
         auto outs = split(g.out, ',');
         while (outs.size() < 3) { outs.push_back(outs.back()); }
         return stdlib::to_tsl<TS<Int>>(env.w, resolve(env, outs[0]), resolve(env, outs[1]), resolve(env, outs[2]));
@@ -1708,6 +1710,65 @@ namespace
     }
 
     // wire the scenario's root graph on the calling thread; logs scn / wirefail / the compiled graph
+    // ---------- a node built through NodeBuilder::native: unlike the static vocabulary its validity gate is applied by the
+    // RUNTIME (ready_to_evaluate).  `native <id> in=<required>,<active> at=<t1>,<t2>,...`: in its start hook it asks to be
+    // woken at the given times; input 0 must hold a value for its evaluation to run, input 1 merely ticks.  Whether or not
+    // the evaluation runs, every wake-up must be honoured by the engine (and the later ones survive the earlier ones). ----------
+    void append_native_nodes(Scenario &scn, GraphBuilder &gb)
+    {
+        const auto &root = scn.graphs.at("root");
+        for (const auto &text : root.natives)
+        {
+            Line       l   = parse_line(text);
+            const long id  = std::stol(l.pos.at(1));
+            auto       ins = split(l.gets("in"), ',');
+            std::vector<long> at;
+            for (auto &x : split(l.gets("at", ""), ',')) { at.push_back(std::stol(x)); }
+            auto index_of = [&](long want) -> std::size_t {
+                const auto &nodes = gb.nodes();
+                for (std::size_t i = 0; i < nodes.size(); ++i)
+                {
+                    const Value &sc = nodes[i].scalars();
+                    if (!sc.has_value()) { continue; }
+                    try
+                    {
+                        auto b = sc.view().as_bundle();
+                        if (b.has_field("id") && static_cast<long>(b.at("id").checked_as<Int>()) == want) { return i; }
+                    }
+                    catch (...) {}
+                }
+                throw std::logic_error("hgv: native node refers to an unknown producer");
+            };
+            const auto *ts_int   = schema_descriptor<TS<Int>>::ts_meta();
+            const auto *in_schema = TypeRegistry::instance().un_named_tsb({{std::string{"need"}, ts_int}, {std::string{"tick"}, ts_int}});
+            NodeTypeMetaData schema;
+            schema.display_name   = "hgv_native_gated";
+            schema.input_schema   = in_schema;
+            schema.node_kind      = NodeKind::Sink;
+            schema.uses_scheduler = true;
+            NodeCallbacks callbacks;
+            callbacks.start = [id, at](const NodeView &view, DateTime start_time) {
+                const NodeScheduler sched{view.scheduler_state(), view.graph_value(), view.node_index(), start_time, view.started()};
+                for (long t : at)
+                {
+                    if (to_dt(t) > start_time)
+                    {
+                        sched.schedule(to_dt(t));
+                        log_req(id, view, start_time, to_dt(t));
+                    }
+                }
+            };
+            callbacks.evaluate = [id](const NodeView &view, DateTime evaluation_time) {
+                J("nfn").i("id", id).i("g", inst_of(view)).i("n", static_cast<long>(view.node_index())).i("t", to_k(evaluation_time)).emit();
+            };
+            const std::size_t self = gb.nodes().size();
+            gb.add_node(NodeBuilder::native(std::move(schema), std::move(callbacks),
+                                            TSEndpointSchema::non_peered(in_schema, {TSEndpointSchema::peered(ts_int), TSEndpointSchema::peered(ts_int)})));
+            gb.add_edge(GraphEdge{.source_node = make_graph_edge_source(index_of(std::stol(ins.at(0)))), .source_path = {}, .target_node = self, .target_path = {0}});
+            gb.add_edge(GraphEdge{.source_node = make_graph_edge_source(index_of(std::stol(ins.at(1)))), .source_path = {}, .target_node = self, .target_path = {1}});
+        }
+    }
+
     std::optional<GraphBuilder> wire_scenario(Scenario &scn)
     {
         g_scn = &scn;
@@ -1716,6 +1777,7 @@ namespace
         try
         {
             gb.emplace(build_graph<RootG>());
+            append_native_nodes(scn, *gb);
         }
         catch (const std::exception &ex)
         {
@@ -1891,6 +1953,7 @@ namespace
                 cur->stmts.push_back(text);
             }
             else if (cmd == "bind" || cmd == "rankdep") { cur->stmts.push_back(text); }
+            else if (cmd == "native") { cur->natives.push_back(text); }
             else { return false; }
             return true;
         }
